@@ -1,10 +1,12 @@
 // Driver for C20: the policy-section ID allocator.
-//   idalloc record <out.ndjson>            seeded random histories incl. drain phases
-//   idalloc replay <hist.json> <out.ndjson>  histories chosen by TLC (edge replay)
+//
+//	idalloc record <out.ndjson>            seeded random histories incl. drain phases
+//	idalloc replay <hist.json> <out.ndjson>  histories chosen by TLC (edge replay)
 package main
 
 import (
 	"encoding/json"
+	"math/rand"
 	"os"
 	"time"
 
@@ -44,6 +46,48 @@ type sess struct {
 	snap  bool
 	dead  bool // the current history was abandoned after a call that did not return
 	hangs int
+	// state-guided steering (no verdict): the identifiers this driver holds, compared after every call with the allocator's
+	// own table (hook VerifSnapshot).  When they disagree the driver immediately makes the public calls that would expose
+	// the disagreement - an in-range allocation at a held identifier the table has lost, a drain to exhaustion when the table
+	// keeps an identifier that was freed - and TLC judges those calls like any other.
+	mine    map[int64]bool
+	min     int64
+	size    int64
+	probes  int
+	probing bool
+	guided  bool // steering on (seeded histories of `record` only; replayed TLC behaviours are executed exactly as generated)
+}
+
+func (s *sess) steer() {
+	if !s.guided || !s.snap || s.dead || s.probing || s.probes >= 6 || s.mine == nil {
+		return
+	}
+	_, _, _, used := s.g.VerifSnapshot()
+	tab := map[int64]bool{}
+	for _, o := range used {
+		tab[o+s.min] = true
+	}
+	s.probing = true
+	defer func() { s.probing = false }()
+	for id := range s.mine {
+		if !tab[id] { // held by the caller, unknown to the table: ask for exactly this identifier
+			s.probes++
+			o := id - s.min
+			s.allocR(o, o+1)
+			return
+		}
+	}
+	for id := range tab {
+		if !s.mine[id] && s.size <= 64 { // freed (or never handed out) but still in the table: is it allocatable again?
+			s.probes++
+			for i := int64(0); i <= s.size; i++ {
+				if _, ok := s.alloc(); !ok {
+					break
+				}
+			}
+			return
+		}
+	}
 }
 
 // call runs one allocator call under a watchdog: a call that does not return within 2 s is
@@ -83,6 +127,7 @@ func (s *sess) newGen(min, max int64) {
 		os.Exit(0) // enough evidence; every leaked call still spins on a CPU
 	}
 	s.dead = false
+	s.mine, s.min, s.size, s.probes = map[int64]bool{}, min, max-min+1, 0
 	s.g = uePolicyContainer.NewGenerator(min, max)
 	s.w.Emit(Ev{Op: "TraceReset", Used: []int64{}})
 	e := Ev{Op: "New", Min: min, Max: max}
@@ -101,6 +146,10 @@ func (s *sess) alloc() (int64, bool) {
 		s.fill(&e)
 	}
 	s.w.Emit(e)
+	if err == nil && !hang {
+		s.mine[id] = true
+	}
+	s.steer()
 	return id, err == nil && !hang
 }
 func (s *sess) allocR(a, b int64) (int64, bool) {
@@ -115,6 +164,10 @@ func (s *sess) allocR(a, b int64) (int64, bool) {
 		s.fill(&e)
 	}
 	s.w.Emit(e)
+	if err == nil && !hang {
+		s.mine[id] = true
+	}
+	s.steer()
 	return id, err == nil && !hang
 }
 func (s *sess) free(id int64) {
@@ -125,11 +178,13 @@ func (s *sess) free(id int64) {
 	e := Ev{Op: "FreeID", ID: id}
 	s.fill(&e)
 	s.w.Emit(e)
+	delete(s.mine, id)
+	s.steer()
 }
 
 func record(out string) {
 	rng := ev.Rng()
-	s := &sess{w: ev.Create(out), snap: true}
+	s := &sess{w: ev.Create(out), snap: true, guided: true}
 	nh := 300
 	if ev.Thorough() {
 		nh = 3000
@@ -200,7 +255,141 @@ func record(out string) {
 			}
 		}
 	}
+	wide(s, rng)
+	long(s, rng)
 	s.w.Close()
+}
+
+// wide: allocators spanning MORE than 2^16 (and 2^24) identifiers, driven at the offsets where a narrowed key, index or
+// counter would wrap (.., 255, 256, 65535, 65536, 65537, .., size-1): targeted allocate-in-range / free / allocate again
+// patterns, then seeded random operations over the same boundary set.  Abstract verdict only (no snapshot of the table).
+func wide(s *sess, rng *rand.Rand) {
+	type rg struct{ min, size int64 }
+	rs := []rg{{0, 70000}, {1, 65537}, {1000, 131073}, {-70000, 70100}, {2147483647 - 66000, 66000}}
+	if ev.Thorough() {
+		rs = append(rs, rg{5, 16777216 + 9}, rg{0, 65536}, rg{-5, 65541}, rg{100000, 262145})
+	}
+	for _, r := range rs {
+		min, size := r.min, r.size
+		s.snap = false
+		s.newGen(min, min+size-1)
+		var offs []int64
+		for _, o := range []int64{0, 1, 2, 254, 255, 256, 257, 65534, 65535, 65536, 65537, 65538, 131071, 131072, 16777215, 16777216, 16777217, size - 2, size - 1} {
+			if o >= 0 && o < size {
+				offs = append(offs, o)
+			}
+		}
+		live := map[int64]bool{}
+		allocR := func(a, b int64) {
+			if id, ok := s.allocR(a, b); ok {
+				live[id] = true
+			}
+		}
+		for _, o := range offs {
+			allocR(o, o+3)
+		}
+		for i := len(offs) - 1; i >= 0; i-- {
+			o := offs[i]
+			s.free(min + o)
+			delete(live, min+o)
+			allocR(0, 5)   // must not hand out a live identifier near the start
+			allocR(o, o+3) // the freed one is allocatable again
+			if id, ok := s.alloc(); ok {
+				live[id] = true
+			}
+		}
+		for k := 0; k < 120; k++ {
+			o := offs[rng.Intn(len(offs))] + int64(rng.Intn(3)) - 1
+			switch rng.Intn(5) {
+			case 0, 1:
+				if rng.Intn(3) == 0 {
+					allocR(o+min, o+min+int64(rng.Intn(4))) // arguments given as identifiers
+				} else {
+					allocR(o, o+int64(rng.Intn(4)))
+				}
+			case 2, 3:
+				id := min + o
+				if len(live) > 0 && rng.Intn(2) == 0 {
+					for x := range live {
+						id = x
+						break
+					}
+				}
+				s.free(id)
+				delete(live, id)
+			default:
+				if id, ok := s.alloc(); ok {
+					live[id] = true
+				}
+			}
+		}
+	}
+}
+
+// long: thousands of operations on ONE small allocator (allocate / free churn, in-range allocations in between, a drain
+// to exhaustion every few hundred steps): behaviour that changes only after N calls (deferred clean-up, counters, caches).
+func long(s *sess, rng *rand.Rand) {
+	nh, steps := 2, 6000
+	if ev.Thorough() {
+		nh, steps = 6, 40000
+	}
+	for h := 0; h < nh; h++ {
+		min := int64(h % 2)
+		size := int64(8 + 8*(h%3))
+		s.snap = true
+		s.newGen(min, min+size-1)
+		var live []int64
+		drop := func(id int64) {
+			for i, x := range live {
+				if x == id {
+					live = append(live[:i], live[i+1:]...)
+					return
+				}
+			}
+		}
+		for k := 0; k < steps; k++ {
+			switch r := rng.Intn(40); {
+			case r < 9:
+				if id, ok := s.alloc(); ok {
+					live = append(live, id)
+				}
+			case r < 29:
+				if len(live) > 0 {
+					id := live[rng.Intn(len(live))]
+					s.free(id)
+					drop(id)
+				}
+			case r < 39: // as often as the plain allocation: whichever call comes first after N frees may be this one
+				a := int64(rng.Intn(int(size)))
+				if id, ok := s.allocR(a, a+int64(rng.Intn(int(size)))); ok {
+					live = append(live, id)
+				}
+			default:
+				if k%7 == 0 {
+					for i := int64(0); i <= size; i++ {
+						id, ok := s.alloc()
+						if !ok {
+							break
+						}
+						live = append(live, id)
+					}
+				}
+			}
+			if k%1024 == 1023 || k%1000 == 999 { // right after a round number of calls: an in-range allocation, then a drain
+				a := int64(rng.Intn(int(size)))
+				if id, ok := s.allocR(a, a+3); ok {
+					live = append(live, id)
+				}
+				for i := int64(0); i <= size; i++ {
+					id, ok := s.alloc()
+					if !ok {
+						break
+					}
+					live = append(live, id)
+				}
+			}
+		}
+	}
 }
 
 func replay(in, out string) {
